@@ -11,9 +11,9 @@ import (
 func newRun41(t *testing.T, w *nfsx.World, drv *hx.Driver, out *outcome) *run41 {
 	r := &run41{t: t, w: w, p: w.NewNFS41(), drv: drv, out: out,
 		incByKey: map[[2]int]int{}, reqs: map[int]*req41{},
-		lastDone: map[[2]int]uint32{}, busy: map[[2]int]*req41{}, touched: map[[2]int]int{}}
+		lastDone: map[[2]int]uint32{}, busy: map[[2]int]*req41{}, touched: map[[2]int]int{}, consumed: map[[3]int]*req41{}}
 	if drv != nil {
-		if o, err := drv.Ask(fmt.Sprintf("41 cfg %d %d 0", nfsx.MaxOps, nfsx.Slots)); err != nil || o != "ok" {
+		if o, err := drv.Ask(fmt.Sprintf("41 cfg %d %d 0 0", nfsx.MaxOps, nfsx.Slots)); err != nil || o != "ok" {
 			r.failMismatch("driver", "ok", o, "cfg: %v", err)
 		}
 	}
@@ -28,6 +28,7 @@ var regressionHistories = [][]string{
 	{"v41", "reg 0 1", "send 0 0 0 1 1 write 1 -1 0 3 park=write:1", "dup 0", "dup 0", "rel 0", "dup 0"},
 	{"v41", "reg 0 1", "send 0 0 0 1 0 owc 0 0", "dup 0", "send 1 0 0 2 1 owc 0 0", "dup 1", "dup 0", "send 2 0 0 4 1 empty", "fdup 1 3 0", "fdup 1 4 1", "fdup 1 5 2"},
 	{"v41", "reg 0 1", "send 0 0 0 1 1 many 11", "send 1 0 0 2 1 many 12", "dup 0", "send 2 0 0 2 1 bad 0", "fdup 2 3 1", "dup 2"},
+	{"v41", "reg 0 1", "send 8 0 2 1 0 write 2 -1 25 4 park=write:2", "fdup 8 14 1", "fdup 8 15 0", "dup 8", "rel 8", "dup 14", "dup 8"},
 	{"v41", "reg 0 1", "cs 0 0", "cs 0 2", "reg 0 2", "cs 0 0", "send 0 0 0 1 1 empty", "send 1 1 0 1 1 empty", "reg 1 1", "send 2 2 0 1 1 dsess 2", "dup 2"},
 }
 
